@@ -194,6 +194,7 @@ func (ex *Exec) spawn(g *Goroutine, fn Value, args []Value, pos token.Pos) *Goro
 	default:
 		panic(fmt.Sprintf("spawn: %T", fn))
 	}
+	ex.enqueue(ng)
 	return ng
 }
 
